@@ -718,12 +718,15 @@ class ScriptGen:
 class C06(Prop, ScriptGen):
     id = 'C06'
     title = 'Script evaluation agrees with reference Script semantics on every program'
-    lean_targets = ['BtcVerif.Props.C06']
+    lean_targets = ['BtcVerif.Props.C06', 'BtcVerif.Props.C06Concrete']
     table_groups = ['Opcodes']
     theorems = ['BtcVerif.C06.' + t for t in (
         'castToBool_equiv', 'num_encode_equiv', 'num_decode_equiv', 'num_operand_equiv', 'tokenise_equiv',
         'predicates_equiv', 'step_equiv', 'eval_equiv_partial', 'eval_fails_iff_partial', 'eval_stack_partial',
-        'verify_equiv_partial', 'findAndDelete_equiv', 'eval_equiv', 'eval_fails_iff', 'eval_stack', 'verify_equiv')]
+        'verify_equiv_partial', 'findAndDelete_equiv', 'eval_equiv', 'eval_fails_iff', 'eval_stack', 'verify_equiv')] + \
+        ['BtcVerif.C06.Concrete.' + t for t in (
+            'rawSignatureHash_ignores_leading_codesep', 'codesepInsensitive_real', 'findAndDelete_coherent',
+            'eval_equiv_real', 'verify_equiv_real')]
     anchors = [('bitcoin/core/scripteval.py', f) for f in (
         '_EvalScript', '_CheckMultiSig', '_CheckSig', '_BinOp', '_UnaryOp', '_CastToBool', '_CastToBigNum',
         '_CheckExec', 'EvalScript', 'VerifyScript')] + \
